@@ -545,6 +545,7 @@ fn main() {
     out.cov("evaluations", formats);
     out.cov("distinct_nontrivial", distinct.len() as u64);
     out.cov("distinct_outcomes", distinct.len() as u64);
+    out.cov("distinct_counts_are_lower_bounds", distinct.len() >= 4 * mc::util::DISTINCT_CAP);
     out.cov("exhaustive", true);
     out.cov(
         "rule",
